@@ -10,13 +10,13 @@ EXTENDS Dedup, Faults, Families, SettingsPool, Json
 CONSTANTS BASES   \* "G1c" | "G1a_1"
 
 UniquePaths(reg) == \A p \in UserPaths(reg) : Cardinality(IdsOfPath(reg, p)) = 1
-Bases == {x \in (IF BASES = "G1c" THEN G1c(0) ELSE G1a_1(0)) : UniquePaths(Register(x.prog, x.roots).reg)}
+Bases == {x \in (IF BASES = "G1c" THEN G1c(0) ELSE G1a_1(0)) : UniquePaths(Register(ProgOf(x), x.roots).reg)}
 
 VARIABLES b, f, gst
 vars == <<b, f, gst>>
 
 Init == /\ b \in Bases
-        /\ f \in FaultsOf(Register(b.prog, b.roots).reg, Base)
+        /\ f \in FaultsOf(Register(ProgOf(b), b.roots).reg, Base)
         /\ gst = GenStart(f.reg, GenInit)
 
 Running == gst.res = "running" /\ gst.i <= Len(f.reg)
